@@ -777,3 +777,27 @@ Theorem C14_vgather2_accepted_length : forall x64 inst_id etype kid v n d,
   x86_vgather2 x64 inst_id etype kid v = MOk n d -> 5 <= n <= 13 /\ d = 0.
 Proof. exact vgather2_accepted_length. Qed.
 Print Assumptions C14_vgather2_accepted_length.
+
+(* ---------------------------------------------------------------- round 7: sequence-level lifts of the step-level frame theorems *)
+Theorem C14_history_sizes_never_shrink : forall fl a h cs s s' os,
+  (forall c, In c cs -> cmd_nonneg c) -> run fl a h s cs = (s', os) -> sizes_le s s'.
+Proof. exact history_sizes_never_shrink. Qed.
+Print Assumptions C14_history_sizes_never_shrink.
+
+Theorem C14_history_label_count_monotone : forall fl a h cs s s' os,
+  run fl a h s cs = (s', os) -> lenZ (st_labels s) <= lenZ (st_labels s').
+Proof. exact history_label_count_monotone. Qed.
+Print Assumptions C14_history_label_count_monotone.
+
+(* a history without a section switch never touches a section other than the one it started in *)
+Theorem C14_history_other_sections_untouched : forall fl a h cs s s' os,
+  (forall c, In c cs -> fp_cur (footprint_of fl c) = false) -> run fl a h s cs = (s', os) -> other_sections_kept s s'.
+Proof. exact history_other_sections_untouched. Qed.
+Print Assumptions C14_history_other_sections_untouched.
+
+Theorem C14_history_lifts_example :
+  let cs := [CNewSection 8 5; CEmbed 3; CNewLabel; CInst (EncErr 26); CAlign 0 8; CBindAtomic 0 0; CEmbed 2] in
+  (forall c, In c cs -> cmd_nonneg c) /\ (forall c, In c cs -> fp_cur (footprint_of FAssembler c) = false) /\
+  (let '(s', _) := run FAssembler X86_64 HThrow init_state cs in (st_sizes s', lenZ (st_labels s'))) = ([10; 0], 1).
+Proof. exact history_lifts_example. Qed.
+Print Assumptions C14_history_lifts_example.
